@@ -1095,6 +1095,8 @@ class MiniInterp:
             return self.iset_method(f[1], f[2], args, n)
         if isinstance(f, tuple) and f and f[0] == "native":
             _, obj, attr = f
+            if isinstance(obj, str) and attr in ("format", "format_map"):
+                return self.format_str(obj, args if attr == "format" else [], kwargs if attr == "format" else (args[0] if args else {}), n)
             if isinstance(obj, list) and attr == "sort":
                 obj[:] = self.builtin("sorted", [list(obj)], dict(kwargs), n)
                 return None
@@ -1124,6 +1126,10 @@ class MiniInterp:
                 raise Unknown(f"native {type(obj).__name__}.{attr}: {e}")
             except (KeyError, IndexError, ValueError) as e:
                 raise PyRaise(EXC_OF.get(type(e), "Exception"), n)
+            except (Unknown, PyRaise):
+                raise
+            except Exception as e:
+                raise Unknown(f"native {type(obj).__name__}.{attr}: {type(e).__name__}: {e}")
         if isinstance(f, tuple) and f and f[0] == "builtin":
             if f[1] == "super" and not args and fi is not None and fi.cls is not None and "self" in env:
                 return T("super", env["self"], fi.cls)
@@ -1297,6 +1303,61 @@ class MiniInterp:
         if r is NotImplemented:
             raise Unknown("callable")
         return r
+
+    def format_str(self, fmt: str, args, kwargs, node):
+        """str.format with the field look-ups (attributes, indices) done by the interpreter"""
+        import string
+        out, auto = [], 0
+        for lit, field, spec, conv in string.Formatter().parse(fmt):
+            out.append(lit)
+            if field is None:
+                continue
+            import re as _r
+            m = _r.match(r"^([^.\[]*)(.*)$", field)
+            head, rest = m.group(1), m.group(2)
+            if head == "":
+                v = args[auto] if auto < len(args) else None
+                if auto >= len(args):
+                    raise PyRaise("IndexError", node)
+                auto += 1
+            elif head.isdigit():
+                if int(head) >= len(args):
+                    raise PyRaise("IndexError", node)
+                v = args[int(head)]
+            else:
+                if head not in kwargs:
+                    raise PyRaise("KeyError", node)
+                v = kwargs[head]
+            for acc in _r.findall(r"\.[^.\[]+|\[[^\]]+\]", rest):
+                if acc.startswith("."):
+                    v = self.getattr(v, acc[1:], None, node)
+                else:
+                    k = acc[1:-1]
+                    k = int(k) if k.lstrip("-").isdigit() else k
+                    try:
+                        v = v[k]
+                    except (KeyError, IndexError) as e:
+                        raise PyRaise(type(e).__name__, node)
+                    except TypeError:
+                        raise Unknown("index in a format field on this value")
+            if spec and "{" in spec:
+                spec = self.format_str(spec, args, kwargs, node)
+            if isinstance(v, (Sym, Lin)) or (isinstance(v, tuple) and isinstance(v, T)):
+                if self.hook:
+                    r = self.hook(self, "call", T("builtin", "str"), [v], {}, node, None)
+                    if isinstance(r, str):
+                        v = r
+                if not isinstance(v, str):
+                    raise Unknown("symbolic value in str.format")
+            if conv == "r":
+                v = repr(v)
+            elif conv == "s":
+                v = str(v)
+            try:
+                out.append(format(v, spec or ""))
+            except (ValueError, TypeError):
+                raise PyRaise("ValueError", node)
+        return "".join(out)
 
     def iset_method(self, st: ISet, name, args, node):
         if name == "add":
